@@ -18,7 +18,7 @@ RULE = (
     "functions) x mode comments (return/unmatched/print/validation/run-mode) x random files (ragged, blank records), 10% with skip_blank_lines=False, policy {collect, print}; "
     "per case: collect vs next vs fast_forward (trace, final variables/counters/validity/stopped/errors/printouts, returned lines) and "
     "collect(nexts=n) for all n in 1..matches+1 (prefix of collect(); LineEvents are a prefix of the full trace; no set_variable/print "
-    "tagged with a line beyond the n-th returned line). Non-trivial: at least one line matches; distinct = distinct (program skeleton, file kind vector)."
+    "tagged with a line beyond the n-th returned line) and one collect(nexts=2, lines=<a list already holding three lines>) run (same list back, held lines untouched, then collect()[:2]). Non-trivial: at least one line matches; distinct = distinct (program skeleton, file kind vector)."
 )
 ASSUMPTIONS = ["time-, random- and fingerprint-valued functions are not generated", "error objects are compared by (line, message)"]
 
